@@ -73,4 +73,11 @@ W_SameTGrid == ~("T" \in O.given /\ SameTGrid /\ Cardinality({j \in DOMAIN D.inp
 W_DifferentTGrid == ~("T" \in O.given /\ ~SameTGrid)
 W_Shift == ~(ctx.n > 0 /\ D.hasClim /\ D.climType = "subtract")
 W_ObsBorrowed == ~(ctx.n > 1 /\ \E j \in DOMAIN D.inputs : ~D.inputs[j].hasObs)
+\* universe coverage (the circumstances the seeded changes needed)
+W_UnsortedTimes == ~(\E j \in DOMAIN D.inputs : ~IsSortedUnique(D.inputs[j].times) /\ Len(D.inputs[j].times) >= 2)
+W_DifferentOrders == ~(Len(D.inputs) >= 2 /\ D.inputs[1].locs # D.inputs[2].locs /\ Elems(D.inputs[1].locs) = Elems(D.inputs[2].locs))
+W_EmptySelection == ~EmptySelection(D, O)
+W_StrictSubset == ~(~EmptySelection(D, O) /\ O.given # {} /\ Len(ctx.T) * Len(ctx.L) * Len(ctx.S) < Len(Context(D, NoOptions).T) * Len(Context(D, NoOptions).L) * Len(Context(D, NoOptions).S))
+W_ObsRangeMasks == ~("obsrange" \in O.given /\ ctx.n >= 2 /\ \E c \in ctx.G : IsNaN(ctx.adj[2, "obs", c]) /\ ~IsNaN(Context(D, NoOptions).adj[2, "obs", c]))
+W_RelativelyClose == ~(\E a, b \in Elems(ctx.T) : a # b /\ Abs(a - b) <= 3600)
 =============================================================================
